@@ -185,7 +185,7 @@ def directory(seed, conf=False):
     import random
     import shlex
     rng = random.Random(seed)
-    pool = ["a", "A", "b", "Ab", "aB", "", "x-y"]
+    pool = ["a", "A", "b", "Ab", "aB", "", "x-y", "my app"]
     init = rng.sample(["a", "b", "x-y"], rng.choice([1, 2]))
     ws = [{"name": n, "np": rng.choice([0, 1, 2]), "G": rng.choice([0.0, 0.1, 0.2]), "W": rng.choice([0.0, 0.1]),
            "priority": rng.choice([0, 1])} for n in init]
